@@ -33,9 +33,9 @@ LABELS = ['file-pkl', 'file-json', 'file-src', 'dir-pkl', 'dir-json', 'dir-fast'
           'dir-mmap', 'dir-src', 'sql-file']
 
 KEYS = {
-    'str': ['k', 'key2', '(1, 3)', 'x.y', 'a b'],
+    'str': ['k', 'key2', '(1, 3)', 'x.y', 'a b', 'L' * 228 + 'x', '.cfg'],
     'ident': ['k1', 'ab_cd', 'f00', 'Z9', 'd41d8cd98f'],
-    'any': ['k', 'key2', 1, 2, (1, 2), ('a', 1), b'\x80\x04K\x01.', 1.5],
+    'any': ['k', 'key2', 1, 2, (1, 2), ('a', 1), b'\x80\x04K\x01.', 1.5, 'L' * 228 + 'x', '.cfg'],
     'sql': ['k', 'key2', 1, 2, 1.5, b'\x80\x04K\x01.'],
 }
 VALUES = {
@@ -109,6 +109,9 @@ def generate(rng, prop, tier):
     # file pre-created in a root-owned directory) and the writer is an unprivileged user
     rodir = label.startswith('file') and not backend.get('link') and bool(pre) and rng.chance(0.1)
     return {'engine': 'crashsim', 'prop': prop, 'backend': backend, 'rodir': rodir,
+            # the process that opens the survivor is a re-run of the same program: if that program seeds the global
+            # random at start-up, it draws the same temporary names as the killed one did
+            'rerun_same_seed': rng.chance(0.5),
             'history': history,
             'ops': [{'op': 'pre', 'k': k, 'v': v} for k, v in pre], 'final': op,
             'order': rng.choice(['sorted', 'permute']), 'kseed': rng.below(1 << 30)}
@@ -561,6 +564,8 @@ def _reader(cfg, work, case):
     from sim.prng import PRNG
     fs = SimFS(work, clock=SimClock(), order=case.get('order', 'sorted'), order_rng=PRNG(case['kseed'] + 1))
     fs.install()
+    if case.get('rerun_same_seed'):
+        _random.seed(case['kseed'])
     with fs:
         return read_back(cfg, work)
 
